@@ -232,6 +232,11 @@ def tryC (m : M α) (h : Exn → M α) : M α := fun s =>
   match m s with
   | .ok a s' => .ok a s'
   | .err x s' => h x s'
+def liftE (r : Except Exn α) : M α := fun s =>
+  match r with
+  | .ok a => .ok a s
+  | .error x => .err x s
+
 def log (o : Obs) : M Unit := modS fun s => { s with trace := o :: s.trace }
 
 def sessionTime (s : Sys) : Nat :=
@@ -306,73 +311,92 @@ def sendData (opcode : Nat) (payload : Bytes) (compress : Bool) : M ActRes := fu
   if compress ∧ s.compression.isSome then sendFrame opcode [] (some payload) s
   else sendFrame opcode payload none s
 
-def doAct (a : Act) : M Unit := fun s =>
-  let fin (r : Res ActRes) : Res Unit :=
-    match r with
-    | .ok res s' => .ok () { s' with trace := .res res :: s'.trace }
-    | .err x s' => .err x s'
+/-- the harness records the outcome of every application call -/
+def logRes (m : M ActRes) : M Unit := do
+  let r ← m
+  log (.res r)
+
+def doAct (a : Act) : M Unit :=
   match a with
   | .sendText (.str cps) c =>
-    if hasSurrogate cps then fin (.ok .valueError s) else fin (sendData Gen.opText (Utf8.encode cps) c s)
-  | .sendText _ _ => fin (.ok .typeError s)
-  | .sendBinary (.bytes b) c => fin (sendData Gen.opBinary b c s)
-  | .sendBinary _ _ => fin (.ok .typeError s)
+    logRes (if hasSurrogate cps then pure .valueError else sendData Gen.opText (Utf8.encode cps) c)
+  | .sendText _ _ => logRes (pure .typeError)
+  | .sendBinary (.bytes b) c => logRes (sendData Gen.opBinary b c)
+  | .sendBinary _ _ => logRes (pure .typeError)
   | .sendPing (.bytes b) =>
-    if b.length > 125 then fin (.ok .valueError s) else fin (sendFrame Gen.opPing b none s)
-  | .sendPing _ => fin (.ok .typeError s)
+    logRes (if b.length > 125 then pure .valueError else sendFrame Gen.opPing b none)
+  | .sendPing _ => logRes (pure .typeError)
   | .sendPong (.bytes b) =>
-    if b.length > 125 then fin (.ok .valueError s) else fin (sendFrame Gen.opPong b none s)
-  | .sendPong _ => fin (.ok .typeError s)
-  | .close code reason => fin (wsClose code reason s)
-  | .sessionClose => fin ((do closeSocket; pure ActRes.ok : M ActRes) s)
-  | .abandon w => .err .genExit { s with abandonedWith := w }
+    logRes (if b.length > 125 then pure .valueError else sendFrame Gen.opPong b none)
+  | .sendPong _ => logRes (pure .typeError)
+  | .close code reason => logRes (wsClose code reason)
+  | .sessionClose => logRes (do closeSocket; pure ActRes.ok)
+  | .abandon w => fun s => .err .genExit { s with abandonedWith := w }
 
 def doActs : List Act → M Unit
   | [] => pure ()
   | a :: r => do doAct a; doActs r
 
 /-- `yield event` to the application: it sees the event and reacts -/
-def yieldEv (e : Event) : M Unit := fun s =>
-  let s := { s with trace := .ev e :: s.trace, hist := e :: s.hist }
-  doActs (s.react s.hist) s
+def yieldEv (e : Event) : M Unit := do
+  modS fun s => { s with trace := .ev e :: s.trace, hist := e :: s.hist }
+  let s ← getS
+  doActs (s.react s.hist)
 
 /-! ### timers: `_regular` -/
 
 def ceilDiv (a b : Nat) : Nat := (a + b - 1) / b
 
-def regular : M Unit := fun s =>
-  if ¬ s.ready then .ok () s else
-  let c := s.cfg
-  (do
-    -- _check_poll
-    let s ← getS
-    let t := sessionTime s
-    let fire := match s.pollStart with
-      | none => true
-      | some p0 => t - p0 ≥ c.poll
-    if fire then
-      modS fun s => { s with pollStart := some t }
-      yieldEv .poll
-    -- _check_auto_ping
-    let s ← getS
-    let t := sessionTime s
-    if c.pingRate ≠ 0 ∧ t > s.nextPing then
-      modS fun s => { s with nextPing := ceilDiv t c.pingRate * c.pingRate }
-      let _ ← sendFrame Gen.opPing [] none      -- WebSocketError swallowed
-    -- _check_ping_timeout
-    let s ← getS
-    let t := sessionTime s
-    if c.pingTimeout ≠ 0 ∧ t - s.lastPong > c.pingTimeout then
-      yieldEv .unresponsive
-      throwE (.forceDisconnect "ping-timeout")
-    -- _check_close_timeout
-    let s ← getS
-    let t := sessionTime s
-    if c.closeTimeout ≠ 0 then
-      match s.sentCloseTime with
-      | none => pure ()
-      | some ct => if t ≥ ct + c.closeTimeout then throwE (.forceDisconnect "close-timeout") else pure ()
-    : M Unit) s
+/-- `_check_poll` + `yield events.Poll()` -/
+def checkPoll : M Unit := do
+  let s ← getS
+  let t := sessionTime s
+  let fire : Bool := match s.pollStart with
+    | none => true
+    | some p0 => decide (t - p0 ≥ s.cfg.poll)
+  if fire then do
+    modS fun s => { s with pollStart := some t }
+    yieldEv .poll
+  else pure ()
+
+/-- `_check_auto_ping` -/
+def checkAutoPing : M Unit := do
+  let s ← getS
+  let t := sessionTime s
+  if s.cfg.pingRate ≠ 0 ∧ t > s.nextPing then do
+    modS fun s => { s with nextPing := ceilDiv t s.cfg.pingRate * s.cfg.pingRate }
+    let _ ← sendFrame Gen.opPing [] none      -- WebSocketError swallowed
+    pure ()
+  else pure ()
+
+/-- `_check_ping_timeout` + `yield Unresponsive` + `raise _ForceDisconnect` -/
+def checkPingTimeout : M Unit := do
+  let s ← getS
+  let t := sessionTime s
+  if s.cfg.pingTimeout ≠ 0 ∧ t - s.lastPong > s.cfg.pingTimeout then do
+    yieldEv .unresponsive
+    throwE (.forceDisconnect "ping-timeout")
+  else pure ()
+
+/-- `_check_close_timeout` -/
+def checkCloseTimeout : M Unit := do
+  let s ← getS
+  let t := sessionTime s
+  if s.cfg.closeTimeout ≠ 0 then
+    match s.sentCloseTime with
+    | none => pure ()
+    | some ct => if t ≥ ct + s.cfg.closeTimeout then throwE (.forceDisconnect "close-timeout") else pure ()
+  else pure ()
+
+/-- `_regular()` (run only once the websocket is ready) -/
+def regular : M Unit := do
+  let s ← getS
+  if s.ready then do
+    checkPoll
+    checkAutoPing
+    checkPingTimeout
+    checkCloseTimeout
+  else pure ()
 
 /-- `_on_event` -/
 def onEvent (e : Event) : M Unit := fun s =>
@@ -399,7 +423,7 @@ def onDisconnect : M Unit := do
     body its `except GeneratorExit` calls `on_disconnect()`. -/
 def feedYield (inTry : Bool) (e : Event) : M Unit :=
   tryC (do onEvent e; yieldEv e; regular) fun x => do
-    if inTry then onDisconnect
+    (if inTry then onDisconnect else pure ())
     throwE (.outer x)
 
 /-! ### FrameParser.parse, one resumption at a time -/
@@ -513,46 +537,52 @@ def closeFromPayload (payload : Bytes) : Except Exn Msg :=
       | some cps => .ok (.close (some code) cps)
   else .ok (.close none [])
 
-/-- `Message.build(frames, decompress)` -/
-def buildMessage (frames : List Frame) : M Msg := fun s =>
-  match frames with
-  | [] => .err (.other "error") s
-  | first :: _ =>
-    let joined := (frames.map (·.payload)).flatten
-    let payloadR : Res Bytes :=
-      if first.rsv1 ≠ 0 ∧ s.decompress then
-        let wbits := (s.compression.map (·.decompressWbits)).getD 15
-        let hist := s.inflHist ++ joined ++ [0, 0, 0xff, 0xff]
-        match s.cfg.inflate wbits hist with
-        | none => .err (.critical "unable to decompress payload") s
-        | some out =>
-          let fresh := out.drop s.inflOut
-          if (s.compression.map (·.resetDecompress)).getD false then
-            .ok fresh { s with inflHist := [], inflOut := 0 }
-          else .ok fresh { s with inflHist := hist, inflOut := out.length }
-      else .ok joined s
-    match payloadR with
-    | .err x s' => .err x s'
-    | .ok payload s' =>
-      let op := first.opcode
-      if op = Gen.opBinary then .ok (.binary payload) s'
-      else if op = Gen.opText then
-        match Utf8.decode payload with
-        | none => .err (.critical "payload contains invalid utf-8") s'
-        | some cps => .ok (.text cps) s'
-      else if op = Gen.opClose then
-        match closeFromPayload payload with
-        | .error x => .err x s'
-        | .ok m => .ok m s'
-      else if op = Gen.opPing then .ok (.ping payload) s'
-      else if op = Gen.opPong then .ok (.pong payload) s'
-      else .ok .unknown s'
+/-- `Deflate.decompress(frames)` through the streaming inflater of the whole history -/
+def inflateMessage (joined : Bytes) : M Bytes := fun s =>
+  let wbits := (s.compression.map (·.decompressWbits)).getD 15
+  let hist := s.inflHist ++ joined ++ [0, 0, 0xff, 0xff]
+  match s.cfg.inflate wbits hist with
+  | none => .err (.critical "unable to decompress payload") s
+  | some out =>
+    if (s.compression.map (·.resetDecompress)).getD false then
+      .ok (out.drop s.inflOut) { s with inflHist := [], inflOut := 0 }
+    else .ok (out.drop s.inflOut) { s with inflHist := hist, inflOut := out.length }
 
-/-- `WebSocket._on_close(message)` -/
-def onClose (code : Option Nat) (reason : List Nat) : M Unit := do
+/-- the message for an opcode and a complete (joined, inflated) payload -/
+def msgOfPayload (op : Nat) (payload : Bytes) : Except Exn Msg :=
+  if op = Gen.opBinary then .ok (.binary payload)
+  else if op = Gen.opText then
+    match Utf8.decode payload with
+    | none => .error (.critical "payload contains invalid utf-8")
+    | some cps => .ok (.text cps)
+  else if op = Gen.opClose then closeFromPayload payload
+  else if op = Gen.opPing then .ok (.ping payload)
+  else if op = Gen.opPong then .ok (.pong payload)
+  else .ok .unknown
+
+/-- `Message.build(frames, decompress)` -/
+def buildMessage (frames : List Frame) : M Msg :=
+  match frames with
+  | [] => throwE (.other "error")
+  | first :: _ => do
+    let joined := (frames.map (·.payload)).flatten
+    let s ← getS
+    let payload ← (if first.rsv1 ≠ 0 ∧ s.decompress then inflateMessage joined else pure joined)
+    liftE (msgOfPayload first.opcode payload)
+
+/-- `if message.code in Status.invalid_codes: raise ProtocolError` -/
+def checkCloseCode (code : Option Nat) : M Unit :=
   match code with
   | some c => if isInvalidCode c then throwE (.protocol s!"reserved close code ({c})") else pure ()
   | none => pure ()
+
+/-- an exception from `close()` that is not a WebSocketError propagates as an ordinary exception -/
+def raiseIfArgError (r : ActRes) : M Unit :=
+  if r = .valueError ∨ r = .structError ∨ r = .typeError then throwE (.other "error") else pure ()
+
+/-- `WebSocket._on_close(message)` -/
+def onClose (code : Option Nat) (reason : List Nat) : M Unit := do
+  checkCloseCode code
   let s ← getS
   if s.closed then pure ()
   else if s.closing then do
@@ -561,7 +591,7 @@ def onClose (code : Option Nat) (reason : List Nat) : M Unit := do
   else do
     feedYield true (.closing code reason)
     let r ← wsClose code (.str reason)
-    if r = .valueError ∨ r = .structError ∨ r = .typeError then throwE (.other "error") else pure ()
+    raiseIfArgError r
     modS fun s => { s with closing := true }
 
 /-- dispatch of one message in `WebSocket.feed` -/
@@ -593,6 +623,13 @@ def onDataFrame (f : Frame) : M Unit := do
       modS fun s => { s with frames := [] }
     else pure ()
 
+/-- one frame in `WebsocketStream.feed`: control frames bypass the fragment list -/
+def onFrame (f : Frame) : M Unit :=
+  if f.isControl then do
+    let m ← buildMessage [f]
+    onMessage m
+  else onDataFrame f
+
 /-- one parser output through stream + websocket; result: keep iterating? -/
 def onOut (o : Out) : M Bool :=
   match o with
@@ -613,16 +650,8 @@ def onOut (o : Out) : M Bool :=
       modS fun s => { s with parsedResponse := true }
       notClosed
   | .frame f => do
-    if f.isControl then do
-      let m ← buildMessage [f]
-      onMessage m
-    else onDataFrame f
+    onFrame f
     notClosed
-
-def liftE (r : Except Exn α) : M α := fun s =>
-  match r with
-  | .ok a => .ok a s
-  | .error x => .err x s
 
 /-- the parser after an exception left `parse()`: the generator is finished; its read
     bookkeeping is dead (normalised so that the state does not depend on where the chunk was cut) -/
@@ -661,31 +690,45 @@ def findSep (sep : Bytes) : Bytes → Option Nat
     if sep.isPrefixOf (b :: r) then some 0
     else (findSep sep r).map (· + 1)
 
+/-- `_ReadUntil.check_length(pos)` with the generated `max_bytes` -/
+def headerTooLong (n : Nat) : Bool := !Gen.headerMaxIsNone && decide (n > Gen.headerMax)
+
+/-- the header block is complete: hand the Response to the consumer, then go on with the
+    rest of the buffer (`data = _buffer[sep_index:]; pos = 0`) -/
+def afterHeader (rest : Bytes) (out : Option Out) : M Unit :=
+  match out with
+  | some o => do
+    let go ← onOut o
+    if go then do
+      let _ ← feedLoop rest
+      pure ()
+    else pure ()
+  | none => do
+    let _ ← feedLoop rest
+    pure ()
+
+/-- `Parser.feed` while awaiting `_ReadUntil(b'\r\n\r\n', max_bytes)` -/
+def feedHeader (data : Bytes) : M Unit := fun s =>
+  let buf := s.p.buf ++ data
+  match findSep Gen.headerSep buf with
+  | none =>
+    if headerTooLong buf.length then .err (.parse "expected separator") s
+    else .ok () { s with p := { s.p with buf := buf } }
+  | some i =>
+    let e := i + Gen.headerSep.length
+    if headerTooLong e then .err (.parse "expected separator") s
+    else
+      match resume s.cfg.v s.p (buf.take e) with
+      | .error x => .err x s
+      | .ok (p', out) => afterHeader (buf.drop e) out { s with p := p' }
+
 /-- `stream.feed(data)` driven to exhaustion inside `WebSocket.feed`'s `try` body -/
-def feedBody (data : Bytes) : M Unit := do
-  let s ← getS
-  if s.p.cont = .header then
-    -- awaiting `_ReadUntil(b'\r\n\r\n', max_bytes)`
-    let buf := s.p.buf ++ data
-    let tooLong (n : Nat) : Bool := ¬ Gen.headerMaxIsNone ∧ n > Gen.headerMax
-    match findSep Gen.headerSep buf with
-    | none =>
-      if tooLong buf.length then throwE (.parse "expected separator")
-      modS fun s => { s with p := { s.p with buf := buf } }
-    | some i =>
-      let e := i + Gen.headerSep.length
-      if tooLong e then throwE (.parse "expected separator")
-      let (p', out) ← liftE (resume s.cfg.v s.p (buf.take e))
-      modS fun s => { s with p := p' }
-      match out with
-      | some o =>
-        let go ← onOut o
-        if go then
-          let _ ← feedLoop (buf.drop e)
-      | none =>
-        let _ ← feedLoop (buf.drop e)
+def feedBody (data : Bytes) : M Unit := fun s =>
+  if s.p.cont = .header then feedHeader data s
   else
-    let _ ← feedLoop data
+    match feedLoop data s with
+    | .ok _ s' => .ok () s'
+    | .err x s' => .err x s'
 
 /-- the `except` clauses of `WebSocket.feed` -/
 def feedHandler (x : Exn) : M Unit :=
@@ -699,7 +742,7 @@ def feedHandler (x : Exn) : M Unit :=
   | .protocol msg => do
     feedYield false (.protocolError msg false)
     let r ← wsClose (some Gen.statusProtocolError) (.str (Http.ofString msg))
-    if r = .valueError ∨ r = .structError ∨ r = .typeError then throwE (.other "error") else pure ()
+    raiseIfArgError r
     throwE (.forceDisconnect "forced")
   | y => throwE y
 
@@ -737,6 +780,10 @@ def recvStep (o : RecvOutcome) : M Bool := fun s =>   -- result: keep looping?
         | .ok _ s' => .ok true s'
         | .err x s' => .err x s'
 
+/-- `selector.wait` returned after `dt` ticks of the virtual clock -/
+def tick (s : Sys) (dt : Nat) : Sys :=
+  { s with now := s.now + dt, trace := if dt ≠ 0 then .tick (s.now + dt) :: s.trace else s.trace }
+
 /-- the `while not websocket.is_closed` loop; consumes the environment script -/
 def loop : List EnvStep → M Unit
   | [] => fun s => if s.closed then .ok () s else .err .scriptEnd s
@@ -746,9 +793,7 @@ def loop : List EnvStep → M Unit
       match step with
       | .selErr => .err (.other "error") s
       | .wait dt readable =>
-        let s1 := { s with now := s.now + dt,
-                           trace := if dt ≠ 0 then .tick (s.now + dt) :: s.trace else s.trace }
-        match regularTop s1 with
+        match regularTop (tick s dt) with
         | .err x s2 => .err x s2
         | .ok _ s2 =>
           match readable with
@@ -762,29 +807,56 @@ def loop : List EnvStep → M Unit
 def selClose : M Unit := fun s =>
   if s.selOpen then .ok () { s with selOpen := false, trace := .selClose :: s.trace } else .ok () s
 
+/-- the `except` clauses and the `else` clause of `run()`'s `try` -/
+def onLoopEnd (r : Option Exn) : M Unit :=
+  match r with
+  | none => do
+    -- `else:` the websocket ended the loop: graceful exit
+    closeSocket
+    yieldEv (.disconnected "closed" true)
+  | some (.forceDisconnect k) => do closeSocket; yieldEv (.disconnected k false)
+  | some (.socketFail k) => do closeSocket; yieldEv (.disconnected k false)
+  | some (.other k) => do closeSocket; yieldEv (.disconnected k false)
+  | some (.protocol _) => do closeSocket; yieldEv (.disconnected "error" false)
+  | some (.critical _) => do closeSocket; yieldEv (.disconnected "error" false)
+  | some (.parse _) => do closeSocket; yieldEv (.disconnected "error" false)
+  | some y => throwE y          -- GeneratorExit / end of script: not an `Exception`
+
+def runBody (env : List EnvStep) : M Unit := do
+  let r : Option Exn ← tryC (do loop env; pure none) (fun x => pure (some x))
+  onLoopEnd r
+
+/-- `finally: selector.close()` (+ the repaired socket cleanup) when an exception passes through -/
+def runFinally (x : Exn) : M Unit := do
+  let s ← getS
+  (if s.cfg.v.cleanup then closeSocket else pure ())
+  selClose
+  throwE x
+
 /-- the body of `run()` from the `try:` on, with its `except` clauses, `else` and `finally` -/
 def runLoop : M Unit := do
   let s ← getS
-  let body : M Unit := do
-    let r : Option Exn ← tryC (do loop s.env; pure none) (fun x => pure (some x))
-    match r with
-    | none =>
-      -- `else:` the websocket ended the loop: graceful exit
-      closeSocket
-      yieldEv (.disconnected "closed" true)
-    | some (.forceDisconnect k) => do closeSocket; yieldEv (.disconnected k false)
-    | some (.socketFail k) => do closeSocket; yieldEv (.disconnected k false)
-    | some (.other k) => do closeSocket; yieldEv (.disconnected k false)
-    | some (.protocol _) => do closeSocket; yieldEv (.disconnected "error" false)
-    | some (.critical _) => do closeSocket; yieldEv (.disconnected "error" false)
-    | some (.parse _) => do closeSocket; yieldEv (.disconnected "error" false)
-    | some y => throwE y          -- GeneratorExit / end of script: not an `Exception`
-  -- `finally: selector.close()` (+ the repaired socket cleanup)
-  tryC (do body; selClose) fun x => do
-    let s ← getS
-    if s.cfg.v.cleanup then closeSocket
-    selClose
-    throwE x
+  tryC (do runBody s.env; selClose) runFinally
+
+/-- `yield events.Connected(url, proxy)`; in the repaired code the `try` starts before it -/
+def yieldConnected (proxy : Bool) : M Unit := do
+  let s ← getS
+  if s.cfg.v.cleanup then
+    tryC (yieldEv (.connected proxy)) (fun x => do closeSocket; throwE x)
+  else yieldEv (.connected proxy)
+
+/-- `run()` once `_connect()` has returned a socket -/
+def afterConnect (proxy : Bool) : M Unit := do
+  modS fun s => { s with sockOpen := true }
+  let s ← getS
+  let r ← write s.cfg.request
+  if wsError r then do
+    closeSocket
+    yieldEv (.connectFail "request-failed")
+  else do
+    yieldConnected proxy
+    modS fun s => { s with selOpen := true }
+    runLoop
 
 def run : M Unit := do
   yieldEv .connecting
@@ -792,20 +864,7 @@ def run : M Unit := do
   match s.cfg.connect with
   | .socketFail => yieldEv (.connectFail "connect-failed")
   | .otherFail => yieldEv (.connectFail "connect-failed")
-  | .ok proxy =>
-    modS fun s => { s with sockOpen := true }
-    let r ← write s.cfg.request
-    if wsError r then
-      closeSocket
-      yieldEv (.connectFail "request-failed")
-    else
-      if s.cfg.v.cleanup then
-        -- repaired: `try:` starts before the Connected yield
-        tryC (yieldEv (.connected proxy)) fun x => do closeSocket; throwE x
-      else
-        yieldEv (.connected proxy)
-      modS fun s => { s with selOpen := true }
-      runLoop
+  | .ok proxy => afterConnect proxy
 
 /-- run a whole connection; the result is the final system state (trace newest first) -/
 def runAll (cfg : Cfg) (react : React) (env : List EnvStep) : Sys :=
